@@ -127,15 +127,50 @@ func stateKey(d *csproto.Decoder, base uintptr) string {
 	return string(unsafe.Slice((*byte)(unsafe.Pointer(d)), decSize))
 }
 
+// Canonical key (quick tier, buffers of the longest length class only; every other buffer and the whole thorough
+// tier use the exact key above). The Decoder remembers where the key read by the last DecodeTag starts and ends
+// (keyStart, keyEnd); Skip is the only reader and departs from its default only if keyEnd-keyStart exceeds
+// SizeOfTagKey(tag) >= 1. A remembered key of length <= 1 can therefore never influence any later call, so
+// states that differ only in such a remembered key have the same futures and are merged. Remembered keys of
+// two or more bytes (every padded key among them) stay in the key. If the Decoder has no such fields (or the
+// layout is not the expected pair of ints) the exact key is used.
+var keyStartOff, keyEndOff = intFieldOffset("keyStart"), intFieldOffset("keyEnd")
+
+func intFieldOffset(name string) uintptr {
+	f, ok := reflect.TypeOf(csproto.Decoder{}).FieldByName(name)
+	if !ok || f.Type.Kind() != reflect.Int {
+		return ^uintptr(0)
+	}
+	return f.Offset
+}
+
+func canonKey(d *csproto.Decoder, base uintptr) string {
+	if keyStartOff == ^uintptr(0) || keyEndOff == ^uintptr(0) || decSize > 128 {
+		return stateKey(d, base)
+	}
+	ks := *(*int)(unsafe.Add(unsafe.Pointer(d), keyStartOff))
+	ke := *(*int)(unsafe.Add(unsafe.Pointer(d), keyEndOff))
+	if ke-ks > 1 || ke < ks {
+		return stateKey(d, base)
+	}
+	var tmp [128]byte
+	b := tmp[:decSize]
+	copy(b, unsafe.Slice((*byte)(unsafe.Pointer(d)), decSize))
+	*(*int)(unsafe.Pointer(&b[keyStartOff])) = 0
+	*(*int)(unsafe.Pointer(&b[keyEndOff])) = 0
+	return string(b)
+}
+
 type reporter interface {
 	Fail(sig, id string, detail any)
 }
 
 type ctx struct {
-	sh   *ev.Shard
-	ops  []op
-	buf  []byte
-	base uintptr
+	canon bool // canonical state key (see canonKey)
+	sh    *ev.Shard
+	ops   []op
+	buf   []byte
+	base  uintptr
 }
 
 type detail struct {
@@ -530,6 +565,10 @@ func (c *ctx) explore(buf []byte) (states, transitions int64) {
 	type st struct {
 		hist []int
 	}
+	stateKey := stateKey
+	if c.canon {
+		stateKey = canonKey
+	}
 	seen := map[string]bool{}
 	var queue []st
 	fresh := func(hist []int) (d *csproto.Decoder) {
@@ -612,6 +651,7 @@ func worker(sh *ev.Shard) {
 					y /= len(sigma)
 				}
 				copy(buf[l:], pad)
+				c.canon = !sh.Thorough() && l == N
 				s, t := c.explore(buf)
 				states += s
 				trans += t
@@ -741,6 +781,7 @@ func main() {
 	r.Set("paddings", []string{"none", "none with cap > len (tail 01...)", "00 x10", "80 x10", "ff x10"})
 	r.Set("operations", len(buildOps()))
 	r.Rule(fmt.Sprintf("explicit-state BFS per buffer: buffers = all byte strings of length <= %d over a 16-symbol wire alphabet, each also with three 10-byte paddings; state = all fields of csproto.Decoder read by reflection; every one of the operations (27 Decode*, Skip x 6 tags x 8 wire types, Seek x 9 offsets x 4 whence, Reset/More/Offset/SetMode/Mode, DecodeNested x 5 targets) is applied in every reachable state and judged against the spec-derived reference (err==nil => item exists, value equal, advance == item length; cursor within [0,len]; over-long declared length => error; returned slices inside the buffer; nested callee not invoked for over-long length). distinct_nontrivial = number of distinct (buffer, decoder state) pairs. Plus the declared-length family with a per-call TotalAlloc budget, run in an address-space-limited subprocess.", N))
+	r.Assume("quick tier, buffers of the longest length class only: states that differ only in a remembered field key of length <= 1 (Decoder.keyStart/keyEnd) are merged; Skip is the only reader of that pair and deviates only when the remembered key is longer than SizeOfTagKey(tag) >= 1, so merged states have equal futures. All shorter buffers and the whole thorough tier use the exact key (all struct fields)")
 	r.Assume("inputs longer than the bound and bytes outside the alphabet are not covered; reference leniency: a 10th varint byte with bits above 2^64 is accepted by both sides")
 	r.Assume("where the cursor rests after an error is unconstrained beyond staying in [0,len] and not moving backwards")
 	r.Finish()
